@@ -25,6 +25,8 @@ FIRST = {
     "C14-C": "missed", "C14-D": "caught", "C16-C": "missed", "C16-D": "caught",
     # fifth wave
     "C10-E": "missed", "C10-F": "caught",
+    "C01-E": "caught", "C01-F": "missed (C16 caught)", "C02-E": "missed", "C02-F": "missed", "C03-E": "missed", "C03-F": "missed",
+    "C07-E": "missed (C09, C11 caught)", "C07-F": "caught", "C12-E": "caught", "C12-F": "missed", "C19-C": "missed", "C19-D": "exit 2",
 }
 
 
